@@ -185,6 +185,7 @@ class Store(object):
     def run_op(self, op):
         self.stats["ops"] += 1
         kind = op[0]
+        self.last_op = kind
         getattr(self, "op_" + kind)(*op[1:])
 
     def op_schema(self, iv, mv):
@@ -645,6 +646,15 @@ class Store(object):
         prop = "C25"
         if sh.get("leases_unsure"):
             return
+        if kind == "mut" and getattr(self, "last_op", None) == "writev":
+            # C23's last sentence: the model already holds the writer's own added/renewed lease, so any
+            # other difference right after a test-and-write was made by the data write
+            mleases = [l for l in sh["leases"] if l]
+            if len(real) != len(mleases) or any(not l.is_renew_secret(secret_of("renew", m["renew"])) for l, m in zip(real, mleases)):
+                self.bad("C23", "leases-altered-by-write", "mutable share %r: after a test-and-write the share lists %d leases, "
+                         "the model (previous leases + the writer's own) %d, or their secrets/order differ" % (key, len(real), len(mleases)))
+            else:
+                self.probe("leases-unchanged-by-write-%s" % ("extra-area" if len(real) > 4 else "header-only"))
         mleases = [l for l in sh["leases"] if l]
         if len(real) != len(mleases):
             self.bad(prop, "lease-count", "%s share %r has %d leases, model %d" % (kind, key, len(real), len(mleases)),
@@ -787,6 +797,13 @@ def gen_case(seed, tier, profile):
             ops.append(["cancel_lease", fam, ch.randrange(W, ("csi", i), n_si), ch.randrange(W, ("csh", i), n_sh),
                         ch.randrange(W, ("csec", i), 7)])
         ops.append(imm_op(i) if fam == "imm" else mut_op(i))
+    if profile == "mut" and ch.chance("config", "lease-burst", 0.6):
+        # containers holding more than four leases keep the rest in the extra-lease area behind the data,
+        # which every container growth has to move (DESIGN C23): make such containers common
+        at = ch.randint("config", "lease-burst-at", 1, min(6, len(ops)))
+        burst = [["add_lease", ch.randrange("config", "lease-burst-si", n_si), sec]
+                 for sec in ch.sample("config", "lease-burst-secs", range(12), ch.randint("config", "lease-burst-n", 3, 9))]
+        ops[at:at] = burst
     if profile == "lease" or ch.chance("config", "v1", 0.2):
         ops.insert(0, ["schema", ch.pick("config", "iv0", [1, 2, 2]), ch.pick("config", "mv0", [1, 2, 2])])
     return {"engine": "storesim", "seed": seed, "cfg": cfg, "ops": ops}
